@@ -363,6 +363,7 @@ func flight4Generate(
 	); err != nil {
 		return nil, nil, err
 	}
+	state.NegotiatedProtocol = finalALPNSelection(serverHello.Extensions)
 	decision := negotiation.DecideConnectionID(offer, serverHello.Extensions)
 	content := handshake.Handshake{Message: serverHello}
 
